@@ -41,7 +41,7 @@ theorem no_false_skip (cfg : Cfg) (ops : List Op) (s : State)
     (hrun : TS.run (step? cfg) init ops = some s) (hnt : NoTruncate ops)
     (hcov : AtCrashes cfg (CrashCovered cfg) init ops) :
     ∀ e ∈ s.skipped, Covers s.acked e.ino (e.off, e.data) :=
-  fun e he => coversG_all.1 ((inv_run (inv_init cfg) hnt hcov hrun).skipped e he trivial)
+  fun e he => coversG_all.1 ((inv_run (inv_init cfg) hnt hcov hrun).skipped e he (by simp [noEx]))
 
 /-! #### a concrete history satisfying the hypotheses (non-vacuity)
 
@@ -194,6 +194,76 @@ example : ∃ j, sTr.jobs 1 = some j ∧ j.w.curOffset = 4 ∧ sTr.inflight = [x
     have := truncation_restart cfgA [97] (fun _ => rfl) trOps sTr hrun 1 ⟨0, []⟩ j (by decide) rfl hj
       (by simp at hc; simp [hc])
     exact (this.2.2 x2 (by simp [afterDetection]; decide) rfl).1
+
+/-- **truncation, delivery of everything written afterwards** (single-stream pipelines): take any
+    history without truncation whose crashes are covered (`ops1`), then a truncation of file `i0`
+    while its job has read something, the detecting worker turn, then any continuation of that run
+    (`ops2`: no kill, no further truncation). In every idle state every admitted complete line of the
+    file — all of it was written after the truncation — is acked or has been handed to the output as an
+    event read *after* the detection (`SeqID > lastEventSeq` at the detection), whatever happened to
+    the events that were in flight at the truncation. -/
+theorem truncation_delivery (cfg : Cfg) (st0 : Stream) (hst : ∀ d, cfg.streamOf d = st0)
+    (ops1 ops2 : List Op) (i0 : Nat) (s0 s' : State) (f : FileSt) (j : JobSt)
+    (hrun1 : TS.run (step? cfg) init ops1 = some s0) (hnt1 : NoTruncate ops1)
+    (hcov1 : AtCrashes cfg (CrashCovered cfg) init ops1)
+    (hr : running s0 = true) (hf : s0.files i0 = some f) (hj : s0.jobs i0 = some j) (hpos : 0 < j.w.curOffset)
+    (hlive : ∀ op ∈ ops2, isLive op = true)
+    (hrun : TS.run (step? cfg) init (ops1 ++ [.truncate i0, .readTurn i0 []] ++ ops2) = some s')
+    (hidle : Idle s') :
+    ∀ f' l, s'.files i0 = some f' → l ∈ lines f' → cfg.accept l.2 = true →
+      ∃ e ∈ s'.acked ++ s'.delivered, j.lastSeq < e.seq ∧ e.ino = i0 ∧ e.off = l.1 ∧ e.data = l.2 := by
+  have hinv0 := inv_run (inv_init cfg) hnt1 hcov1 hrun1
+  obtain ⟨hseq, hskip⟩ := seqInv_run hst ops1 skipInv_init (seqInv_init st0) hrun1
+  have hinv2 := inv_after_detection hst (running_up hr) hf hj hseq hinv0
+  rw [List.append_assoc, TS.run_append, hrun1, Option.bind_some, TS.run_append,
+    run_truncate_detect hr hf hj (hskip i0 j hj) hpos, Option.bind_some] at hrun
+  have hinv' := inv_run_live (goodUp_after i0 j.lastSeq) ops2 hinv2 hlive hrun
+  intro f' l hf' hl hacc
+  obtain ⟨e, he, hg, hi, h3⟩ := inv_idle_covered hinv' hidle i0 f' l hf' hl hacc
+  exact ⟨e, he, hg hi, hi, h3⟩
+
+/-- non-vacuity: a1 a2 in flight at the truncation; afterwards the stale a1 is acked and committed
+    (ignored), a new line is written at offset 2 — where a1 was — and is delivered as event SeqID 3 -/
+example : ∃ e ∈ sTrAll.acked ++ sTrAll.delivered, 2 < e.seq ∧ e.ino = 1 ∧ e.off = 2 ∧ e.data = [97, 10] := by
+  cases hj : sTrPre.jobs 1 with
+  | none => have : (sTrPre.jobs 1).isSome = true := by decide
+            rw [hj] at this; cases this
+  | some j =>
+    have hc : (sTrPre.jobs 1).map (fun j => (j.w.curOffset, j.lastSeq)) = some (4, 2) := by decide
+    rw [hj] at hc; simp at hc
+    have hrun1 : TS.run (step? cfgA) init trPre = some sTrPre := by
+      rw [run_eq_S trPre skipInv_init]; simp [sTrPre]
+    have hrun : TS.run (step? cfgA) init (trPre ++ [.truncate 1, .readTurn 1 []] ++ trPost) = some sTrAll := by
+      rw [run_eq_S _ skipInv_init]; simp [sTrAll]
+    have hidle : Idle sTrAll := by
+      refine ⟨by decide, by decide, ?_, ?_⟩
+      · intro i f hf
+        have hfiles : sTrAll.files =
+            upd (upd (upd (upd (fun _ => none) 1 (some ⟨0, []⟩)) 1 (some ⟨0, fileA⟩)) 1 (some ⟨0, []⟩)) 1
+              (some ⟨0, [97, 10]⟩) := rfl
+        rw [hfiles] at hf
+        by_cases hi : i = 1
+        · subst hi
+          simp at hf; subst hf
+          cases hj' : sTrAll.jobs 1 with
+          | none => have : (sTrAll.jobs 1).isSome = true := by decide
+                    rw [hj'] at this; cases this
+          | some j' =>
+            refine ⟨j', rfl, ?_⟩
+            have : (sTrAll.jobs 1).map (·.w.curOffset) = some 2 := by decide
+            rw [hj'] at this; simpa using this
+        · simp [upd, hi] at hf
+      · have : sTrAll.inflight = [x2, z1] := by decide
+        rw [this]; intro e he; simp at he; rcases he with rfl | rfl <;> decide
+    have := truncation_delivery cfgA [97] (fun _ => rfl) trPre trPost 1 sTrPre sTrAll ⟨0, fileA⟩ j
+      hrun1 (by unfold NoTruncate; decide)
+      (atCrashes_of_crashStates trPre skipInv_init (by
+        intro sc hsc
+        have : crashStates cfgA init trPre = [] := rfl
+        rw [this] at hsc; cases hsc))
+      (by decide) rfl hj (by omega) (by decide) hrun hidle ⟨0, [97, 10]⟩ (2, [97, 10]) rfl (by decide) rfl
+    rw [hc.2] at this
+    exact this
 
 /-- the same statement without the single-stream hypothesis -/
 def TruncationRestartAnyStreams : Prop :=
